@@ -379,5 +379,17 @@ impl Config for Arith {
 }
 
 pub fn configs(tier: Tier) -> Vec<Box<dyn Config>> {
-    vec![Box::new(Arith { tier })]
+    use crate::keys::Plan;
+    use crate::laysut::{Coll, Z16, A64, S3};
+    let q = tier == Tier::Quick;
+    vec![
+        Box::new(Arith { tier }),
+        // where the arithmetic is used: the smallest tables (4 / 8 / 16 buckets, capacity 3 / 7 / 14) through every
+        // operation with the free-slot accounting checked in every state, and the layouts actually requested from
+        // the allocator for zero-sized over-aligned, over-aligned and odd-sized elements
+        super::c01::closed(Plan::Zero, if q { 5 } else { 9 }, tier),
+        super::c02::lay::<Z16>(Coll::Table, Plan::Max, 1, tier),
+        super::c02::lay::<A64>(Coll::Set, Plan::Zero, if q { 3 } else { 5 }, tier),
+        super::c02::lay::<S3>(Coll::Map, Plan::Seq, if q { 3 } else { 5 }, tier),
+    ]
 }
